@@ -66,4 +66,60 @@ def checkAll (slices : List SliceRow) (calls : List CallRow) : Bool := slices.al
 /-- the rows that fail, for the report -/
 def failing (slices : List SliceRow) (calls : List CallRow) : List SliceRow := slices.filter (fun r => !rowOk calls r)
 
+/-! ## Package-level variables (shared between the goroutines that call `Parse`)
+
+`sql.Parse` runs on one goroutine per client connection, so it must not touch unsynchronised
+shared mutable state: a Go map written by two goroutines is a `fatal error: concurrent map
+writes` that no `recover` can stop.  The extractor lists every package-level `var` of the
+package with its type class and how the function bodies use it (`init()` excluded):
+`writes` = sites that assign it / an element / a field, `delete`/`clear`/`copy` into it, sort it,
+pass it to a package function that writes or aliases that parameter, plus sites that alias it
+(`&v`, `x := v`, `return v`); `unguarded` = access sites (reads included) in functions that take no
+lock.  Compiled regexps and tables that are only read have `writes = 0`. -/
+
+/-- type classes, as interned by the generator -/
+def kScalar : Nat := 0
+def kMap : Nat := 1
+def kSlice : Nat := 2
+def kArray : Nat := 3
+def kPointer : Nat := 4
+def kRegexp : Nat := 5
+def kSync : Nat := 6
+def kFunc : Nat := 7
+def kOther : Nat := 8
+
+structure VarRow where
+  line : Nat
+  kind : Nat
+  writes : Nat
+  unguarded : Nat
+deriving Repr, DecidableEq
+
+/-- a package-level variable is harmless for concurrent `Parse` calls if it is a synchronisation
+object (sync.*, atomic.*, channel), or no function writes / aliases it, or every access happens in
+a function that takes a lock. -/
+def varOk (v : VarRow) : Bool := v.kind == kSync || v.writes == 0 || v.unguarded == 0
+
+def varsOk (vs : List VarRow) : Bool := vs.all varOk
+
+theorem varsOk_iff (vs : List VarRow) :
+    varsOk vs = true ↔ ∀ v ∈ vs, v.kind = kSync ∨ v.writes = 0 ∨ v.unguarded = 0 := by
+  simp [varsOk, varOk, List.all_eq_true, Bool.or_eq_true]
+  constructor
+  · intro h v hv
+    rcases h v hv with (h | h) | h
+    · exact Or.inl h
+    · exact Or.inr (Or.inl h)
+    · exact Or.inr (Or.inr h)
+  · intro h v hv
+    rcases h v hv with h | h | h
+    · exact Or.inl (Or.inl h)
+    · exact Or.inl (Or.inr h)
+    · exact Or.inr h
+
+/-- a hoisted compiled regexp, a read-only keyword table and a mutex-guarded cache are accepted … -/
+example : varsOk [⟨10, kRegexp, 0, 3⟩, ⟨11, kSlice, 0, 5⟩, ⟨12, kSync, 0, 0⟩, ⟨13, kMap, 1, 0⟩] = true := by decide
+/-- … the lock-less pattern cache (one write site, two unguarded accesses) is not. -/
+example : varsOk [⟨624, kMap, 1, 2⟩] = false := by decide
+
 end KafVerif.SqlSlices
